@@ -52,7 +52,7 @@ def gen(ctx, big):
     for _ in range(2500 if big else 300):
         sh = circgen.random_shape(rnd, rnd.randint(1, 10))
         syms = rnd.choice([symbols, ["R", "C", "Q"], ["R", "Tlm", "Tlm", "C"]])
-        cases.append(circgen.fill(rnd, sh, syms, labels=LABELS))
+        cases.append(circgen.fill(rnd, sh, syms, labels=LABELS, nest=(_ % 4 == 3)))
     return cases, rnd
 
 
